@@ -1261,6 +1261,10 @@ fn install_panic_hook() {
         if msg == "payload formatting panics on request" && TL.with(|t| t.expect_panic.get()) {
             return; // the payload's formatting was asked to panic
         }
+        if EXPECT_LIMIT_PANIC.load(Relaxed) != 0 && msg.starts_with(LIMIT_PANIC_MSG) {
+            LIMIT_PANICS_SEEN.fetch_add(1, Relaxed);
+            return; // documented refusal of read() with the maximum number of readers held
+        }
         let me = TL.with(|t| t.me.get());
         let op = if me < MAXT { OP_NAMES[((SLOTS[me].op.load(Relaxed) & 0xff) as usize).min(OP_NAMES.len() - 1)] } else { "-" };
         if let Ok(mut p) = PANICS.lock() {
@@ -2036,6 +2040,197 @@ impl std::fmt::Display for Ctx<'_> {
     }
 }
 
+// ------------------------------------------------------------------------------------------------
+// reader-count boundary (RwLock): the lock word is preset as if almost the maximum number of read
+// guards had been forgotten (safe code can get there with mem::forget, 2^30 calls), then real
+// try_read / read / try_write / guard drops run on it. The position of the word and the write-locked
+// encoding are found by observation, never assumed; a failed observation is inconclusive.
+// ------------------------------------------------------------------------------------------------
+static EXPECT_LIMIT_PANIC: AtomicU32 = AtomicU32::new(0);
+static LIMIT_PANICS_SEEN: AtomicU32 = AtomicU32::new(0);
+const LIMIT_PANIC_MSG: &str = "too many active read locks";
+
+struct RlWords<'a> {
+    w: Vec<&'a AtomicU32>,
+}
+impl RlWords<'_> {
+    fn snap(&self) -> Vec<u32> {
+        self.w.iter().map(|a| a.load(Relaxed)).collect()
+    }
+}
+
+/// find the state word of `lock` and the write-locked encoding by watching real guards
+fn rl_probe<'a>(lock: &'a RwLock<u32>, words: &RlWords<'a>) -> Result<(usize, u32), String> {
+    let s0 = words.snap();
+    let Some(g) = lock.try_read() else { return Err("try_read on a fresh lock refused".into()) };
+    let s1 = words.snap();
+    drop(g);
+    let s2 = words.snap();
+    let ch: Vec<usize> = (0..s0.len()).filter(|&i| s0[i] != s1[i]).collect();
+    if ch.len() != 1 || s0[ch[0]] != 0 || s1[ch[0]] != 1 || s2 != s0 {
+        return Err(format!("one read guard did not change exactly one word 0 -> 1 -> 0: {s0:?} {s1:?} {s2:?}"));
+    }
+    let idx = ch[0];
+    let Some(g) = lock.try_write() else { return Err("try_write on a free lock refused".into()) };
+    let s3 = words.snap();
+    drop(g);
+    let s4 = words.snap();
+    let ch: Vec<usize> = (0..s0.len()).filter(|&i| s0[i] != s3[i]).collect();
+    if ch != [idx] || s4 != s0 {
+        return Err(format!("one write guard did not change only the state word: {s0:?} {s3:?} {s4:?}"));
+    }
+    let wl = s3[idx];
+    if wl < 7 || wl & wl.wrapping_add(1) != 0 {
+        return Err(format!("write-locked encoding {wl:#x} is not a low-bit mask"));
+    }
+    // a preset count must behave like forgotten guards
+    words.w[idx].store(5, Relaxed);
+    let g = lock.try_read();
+    let s5 = words.w[idx].load(Relaxed);
+    drop(g);
+    let s6 = words.w[idx].load(Relaxed);
+    words.w[idx].store(0, Relaxed);
+    if s5 != 6 || s6 != 5 {
+        return Err(format!("preset word 5 did not count 5 -> 6 -> 5: {s5} {s6}"));
+    }
+    Ok((idx, wl))
+}
+
+/// returns (sequences run, judged operations) or Err(inconclusive text)
+fn reader_limit_battery(env: &str) -> Result<(u64, u64), String> {
+    if IS_MIRI {
+        return Ok((0, 0));
+    }
+    let lock: RwLock<u32> = RwLock::new(0x5EED_C0DE);
+    let n = std::mem::size_of::<RwLock<u32>>() / 4;
+    if std::mem::align_of::<RwLock<u32>>() < 4 || n == 0 || n > 8 {
+        return Err("unexpected RwLock<u32> layout".into());
+    }
+    let base = (&raw const lock).cast::<AtomicU32>();
+    // SAFETY (harness): every word of RwLock<u32> is an AtomicU32 or an UnsafeCell<u32>, 4-aligned
+    let words = RlWords { w: (0..n).map(|i| unsafe { &*base.add(i) }).collect() };
+    let (idx, wl) = rl_probe(&lock, &words)?;
+    let word = words.w[idx];
+    let max_readers = wl - 1; // the largest count that does not read as write-locked
+    let (mut seqs, mut judged) = (0u64, 0u64);
+    const LEN: u32 = 5;
+    for back in 0..3u32 {
+        let preset = max_readers - back;
+        'seq: for code in 0..4u32.pow(LEN) {
+            seqs += 1;
+            word.store(preset, Relaxed);
+            let mut real: Vec<RwLockReadGuard<'_, u32>> = Vec::new();
+            let mut trace = String::new();
+            let mut bad: Option<(&str, String)> = None;
+            for step in 0..LEN {
+                let op = (code >> (2 * step)) & 3;
+                let w0 = word.load(Relaxed);
+                if w0 != preset + real.len() as u32 {
+                    bad = Some(("count-drift", format!("word {w0:#x} before step {step}, expected preset + {} real guards", real.len())));
+                    break;
+                }
+                match op {
+                    0 | 1 => {
+                        let name = if op == 0 { "try_read" } else { "read" };
+                        let _ = write!(trace, "{name} ");
+                        let got = if op == 0 {
+                            lock.try_read()
+                        } else {
+                            if (w0 & wl) == wl {
+                                continue; // a blocking read on a word that reads as write-locked would park: not called
+                            }
+                            EXPECT_LIMIT_PANIC.store(u32::from(w0 == max_readers), Relaxed);
+                            let r = std::panic::catch_unwind(std::panic::AssertUnwindSafe(|| lock.read()));
+                            EXPECT_LIMIT_PANIC.store(0, Relaxed);
+                            r.ok() // a panic below the limit was recorded by the hook and is reported by report_panics
+                        };
+                        judged += 1;
+                        let w1 = word.load(Relaxed);
+                        if let Some(g) = got {
+                            if (w1 & wl) == wl || w0 >= max_readers {
+                                std::mem::forget(g);
+                                bad = Some(("admitted-beyond-max", format!(
+                                    "{name} returned a guard with {w0} readers already held (limit {max_readers}); the word is now {w1:#x} and a lock held only by readers reads as write-locked ({wl:#x})")));
+                                break;
+                            }
+                            if w1 != w0 + 1 {
+                                std::mem::forget(g);
+                                bad = Some(("count-drift", format!("{name} succeeded but the word went {w0:#x} -> {w1:#x}")));
+                                break;
+                            }
+                            if *g != 0x5EED_C0DE {
+                                bad = Some(("payload", "read guard shows a different payload".into()));
+                            }
+                            real.push(g);
+                        } else if w1 != w0 {
+                            bad = Some(("count-drift", format!("{name} refused / panicked but the word went {w0:#x} -> {w1:#x}")));
+                            break;
+                        }
+                    }
+                    2 => {
+                        trace.push_str("try_write ");
+                        judged += 1;
+                        if let Some(g) = lock.try_write() {
+                            std::mem::forget(g);
+                            bad = Some(("try-write-admitted-with-readers", format!("try_write succeeded with {w0} readers holding the lock")));
+                            break;
+                        }
+                        if word.load(Relaxed) != w0 {
+                            bad = Some(("count-drift", format!("refused try_write changed the word {w0:#x} -> {:#x}", word.load(Relaxed))));
+                            break;
+                        }
+                    }
+                    _ => {
+                        trace.push_str("drop ");
+                        if let Some(g) = real.pop() {
+                            drop(g);
+                            judged += 1;
+                            let w1 = word.load(Relaxed);
+                            if w1 != w0 - 1 {
+                                bad = Some(("count-drift", format!("dropping a read guard moved the word {w0:#x} -> {w1:#x}")));
+                                break;
+                            }
+                        }
+                    }
+                }
+            }
+            if bad.is_none() {
+                let k = real.len();
+                while let Some(g) = real.pop() {
+                    drop(g);
+                }
+                let w = word.load(Relaxed);
+                if w != preset {
+                    bad = Some(("count-not-restored", format!("after dropping all {k} real guards the word is {w:#x}, preset was {preset:#x}")));
+                }
+            }
+            if let Some((what, why)) = bad {
+                for g in real.drain(..) {
+                    std::mem::forget(g);
+                }
+                word.store(0, Relaxed);
+                viol(
+                    &format!("reader-limit/{what}"),
+                    &format!(
+                        "{{\"env\":\"{env}\",\"readers_preset_as_forgotten_guards\":{preset},\"reader_limit\":{max_readers},\"write_locked_encoding\":{wl},\"operations\":{},\"why\":{}}}",
+                        vh::js(trace.trim()),
+                        vh::js(&why)
+                    ),
+                );
+                if what == "admitted-beyond-max" || what == "try-write-admitted-with-readers" {
+                    break 'seq; // same defect on every further sequence of this preset
+                }
+            }
+        }
+    }
+    word.store(0, Relaxed);
+    if lock.try_write().is_none() {
+        return Err("lock not free after the word was reset".into());
+    }
+    vh::count("reader_limit_overflow_panics_at_limit", u64::from(LIMIT_PANICS_SEEN.swap(0, Relaxed)));
+    Ok((seqs, judged))
+}
+
 fn run_battery(rw: bool, kname: &str, env: &str) {
     reset_monitor();
     tl_reset(MAXW, 0xBA77);
@@ -2046,6 +2241,20 @@ fn run_battery(rw: bool, kname: &str, env: &str) {
         *c = format!("{{\"lock\":\"{kname}\",\"env\":\"{env}\",\"phase\":\"single-threaded surface battery\"}}");
     }
     let r = std::panic::catch_unwind(|| surface_battery(rw));
+    if rw {
+        SLOTS[MAXW].op.store(3, Relaxed);
+        match std::panic::catch_unwind(|| reader_limit_battery(env)) {
+            Ok(Ok((seqs, judged))) => {
+                vh::count("reader_limit_sequences", seqs);
+                vh::count("reader_limit_operations_judged", judged);
+                if seqs > 0 {
+                    vh::distinct(&format!("{kname}/{env}/reader-limit"));
+                }
+            }
+            Ok(Err(e)) => vh::inconclusive(&format!("reader-count boundary scenario not judged: {e}")),
+            Err(_) => vh::inconclusive("reader-count boundary scenario did not complete (panic)"),
+        }
+    }
     SLOTS[MAXW].live.store(0, Relaxed);
     SLOTS[MAXW].op.store(0, Relaxed);
     let ctx = format!("{{\"phase\":\"surface battery\",\"env\":\"{env}\"}}");
